@@ -96,7 +96,7 @@ func NewFS() *FS {
 		f.install()
 		return f
 	}
-	d, err := os.MkdirTemp("", "verif-fs-")
+	d, err := os.MkdirTemp(tmpBase, "verif-fs-")
 	if err != nil {
 		panic(err)
 	}
@@ -761,7 +761,7 @@ func (f *FS) install() {
 // CrashImage returns a new file system holding the state after the first k journalled operations
 // (applied to an empty tree with the given pre-existing directories). Symbolic engine only.
 func (f *FS) CrashImage(k int, base *FS) *FS {
-	img := &FS{sym: true, Root: f.Root, FailWriteAt: -1, FailOpAt: -1, NoJournal: true}
+	img := &FS{sym: true, Root: f.Root, FailWriteAt: -1, FailOpAt: -1, NoJournal: true, WalkReverse: f.WalkReverse}
 	if base != nil {
 		for _, n := range base.nodes {
 			img.nodes = append(img.nodes, &node{path: n.path, dir: n.dir, data: append([]byte{}, n.data...)})
@@ -843,7 +843,7 @@ func (f *FS) NoteWrite(p string, off int64, b []byte) {
 // NativeCrashImage materialises the first k journalled operations in a fresh temporary directory
 // (paths are re-rooted from f.Root to the new root) and returns a file system rooted there.
 func (f *FS) NativeCrashImage(k int, base *FS, dirs []string) *FS {
-	d, err := os.MkdirTemp("", "verif-img-")
+	d, err := os.MkdirTemp(tmpBase, "verif-img-")
 	if err != nil {
 		panic(err)
 	}
@@ -953,3 +953,32 @@ func (f *FS) FaultHit() bool { return f.FailWriteAt >= 0 && f.writes > f.FailWri
 
 // DisarmWriteFault switches fault injection off again.
 func (f *FS) DisarmWriteFault() { f.FailWriteAt = -1 }
+
+// tmpBase is where native runs create their directories ("" = the default temporary directory).
+var tmpBase string
+
+// ListNewestFirst (native runs): create the directories of this run on a file system that lists directory
+// entries newest first (tmpfs: /dev/shm), if there is one; os.RemoveAll and friends then visit newer files
+// before older ones, like the model file system with WalkReverse. Without such a file system nothing changes.
+func ListNewestFirst(on bool) {
+	tmpBase = ""
+	if !on || Symbolic() {
+		return
+	}
+	d, err := os.MkdirTemp("/dev/shm", "verif-probe-")
+	if err != nil {
+		return
+	}
+	defer os.RemoveAll(d)
+	os.WriteFile(filepath.Join(d, "a"), nil, 0o666)
+	os.WriteFile(filepath.Join(d, "b"), nil, 0o666)
+	f, err := os.Open(d)
+	if err != nil {
+		return
+	}
+	names, _ := f.Readdirnames(-1)
+	f.Close()
+	if len(names) == 2 && names[0] == "b" {
+		tmpBase = "/dev/shm"
+	}
+}
